@@ -16,6 +16,7 @@ from puresnmp.adt import (
     V3Flags,
 )
 from puresnmp.credentials import V3, Credentials
+from puresnmp.exc import NotInTimeWindow
 from puresnmp.pdu import (
     PDU,
     BulkGetRequest,
@@ -73,7 +74,16 @@ class V3MPM(MessageProcessingModel[V3EncodingResult, TV3SecModel]):
         if self.security_model is None:
             self.security_model = create_sm(security_model_id)
         message = Message.decode(whole_msg)
-        msg = self.security_model.process_incoming_message(message, credentials)
+        try:
+            msg = self.security_model.process_incoming_message(
+                message, credentials
+            )
+        except NotInTimeWindow:
+            # Our notion of the remote engine boots/time is outdated (f.ex.
+            # because the device rebooted). Forget it so that the next request
+            # runs the discovery again.
+            self.disco = None
+            raise
         return msg.scoped_pdu.data
 
     async def encode(
